@@ -1,0 +1,20 @@
+//go:build verif
+
+package executor
+
+import "github.com/alpacahq/marketstore/v4/planner"
+
+// Verification hooks for property C11 (add-only, compiled only with -tags verif): thin exported
+// wrappers around the unexported post-filters of Reader.Read for variable-length buckets, so that an
+// external harness can drive the real functions directly on generated buffers.
+// No behaviour is changed.
+
+// VerifC11TrimResultsToRange exposes trimResultsToRange (executor/scanner.go).
+func VerifC11TrimResultsToRange(dr *planner.DateRange, rowlen int, src []byte) []byte {
+	return trimResultsToRange(dr, rowlen, src)
+}
+
+// VerifC11TrimResultsToLimit exposes trimResultsToLimit (executor/scanner.go).
+func VerifC11TrimResultsToLimit(l *planner.RowLimit, rowLen int, src []byte) []byte {
+	return trimResultsToLimit(l, rowLen, src)
+}
